@@ -152,11 +152,11 @@ theorem exchange_never_finished (ev : String) (t : Turn) : (runTurn false ev t).
 batches, in order, followed by the data batch ("each data batch preceded by that turn's logs"). -/
 theorem turn_logs_then_data (pm : Bool) (ev : String) (logs : List LogCall) (v : String) (md : KVs) (p : Bool) :
     runTurn pm ev ⟨logs.map .log ++ [.emit v md p], .ok⟩ =
-      ({ batches := logs.map (fun lc => .log lc.level lc.msg (mapOfKVs lc.extras) none) ++ [.data v (mapOfKVs md)],
+      ({ batches := logs.map (fun lc => .log lc.level lc.msg (wireExtras (mapOfKVs lc.extras)) none) ++ [.data v (mapOfKVs md)],
          hasData := true, finished := false, producerMode := pm }, none) := by
   have key : ∀ (logs : List LogCall) (c : Collector), c.hasData = false →
       runOps ev c (logs.map .log ++ [.emit v md p]) =
-        ({ c with batches := c.batches ++ logs.map (fun lc => .log lc.level lc.msg (mapOfKVs lc.extras) none)
+        ({ c with batches := c.batches ++ logs.map (fun lc => .log lc.level lc.msg (wireExtras (mapOfKVs lc.extras)) none)
                               ++ [.data v (mapOfKVs md)], hasData := true }, none) := by
     intro logs
     induction logs with
